@@ -114,7 +114,7 @@ func (c13) RunBatch(ctx *core.Ctx, batch int) {
 		})
 	default:
 		// every hostile string as a field name and as a value under each column operator
-		for _, h := range gen.HostileStrings {
+		for _, h := range gen.ValueDict(ctx.Rand("values"), 200) {
 			hb, _ := json.Marshal(h)
 			for _, op := range []string{"EQUALS", "GREATER", "LESS_EQ", "LIKE", "IN", "RANGE"} {
 				right := `"v"`
